@@ -188,7 +188,10 @@ class Stepper:
                                    'clear': st.booleans(), 'as_tuple': st.booleans()}),
             st.fixed_dictionaries({'op': st.just('queue_input'), 'values': st.lists(st.sampled_from(INPUT_VALUES), max_size=3)}),
             st.just({'op': 'clear_input'}))
-        return st.one_of(run, run, call, call, ev, queue, st.just({'op': 'clear_output'}))
+        # a second, unrelated sandbox (e.g. for a reference solution) used next to the student's one: must not show in the student's record
+        other = st.fixed_dictionaries({'op': st.just('other_sandbox'), 'action': st.sampled_from(['new', 'run', 'run', 'clear_output', 'set_input']),
+                                       'text': st.sampled_from(TEXTS[:8])})
+        return st.one_of(run, run, call, call, ev, queue, st.just({'op': 'clear_output'}), other)
 
     def after_execution(self, t, used, viol, what, returned=None, expect_return=None):
         sb = self.sb
@@ -320,6 +323,17 @@ class Stepper:
             elif kind == 'clear_output':
                 C.clear_output()
                 self.model.raw, self.model.lines = '', []
+            elif kind == 'other_sandbox':
+                from pedal.sandbox import Sandbox
+                self.flags.add('second-sandbox')
+                if op['action'] == 'new' or getattr(self, 'other', None) is None:
+                    self.other = Sandbox(report=sb.report)
+                if op['action'] == 'run':
+                    self.other.run('print(%r)\nreply = input(%r)\nprint(reply)\n' % (op['text'], op['text']), filename='reference.py', inputs=['from the other sandbox'])
+                elif op['action'] == 'clear_output':
+                    self.other.clear_output()
+                elif op['action'] == 'set_input':
+                    self.other.set_input([op['text'], op['text']])
             elif kind == 'set_input':
                 value = op['value']
                 if isinstance(value, list) and op['as_tuple']:
